@@ -1485,6 +1485,8 @@ def replay(ctx: 'vf.Ctx', data):
         judge(ctx, case, results.get(case['id']))
     elif isinstance(case, dict) and 'ids' in case:
         list_correspondence(ctx)
+    elif isinstance(case, dict) and ('input_perm' in case or 'pf' in case):
+        pas_probe(ctx)
     else:
         run(ctx)
 
